@@ -694,11 +694,16 @@ def run_subst(case):
 
 
 def run_extract_diag(case):
+    """Domain of the pass as used by FullBlockZXZPass: the VariableUnitaryGates of the chosen size sit on ONE location and
+    whatever lies between them commutes with a diagonal there.  Outside of it the pass silently merges the extracted diagonal
+    into an operation on other qudits / another qudit order / across a non-commuting gate (finding C10.E1)."""
     S = _setup()
     r = Rep(case)
     name = 'ExtractDiagonalPass'
     c0 = build(case['circ'])
     c1 = c0.copy()
+    vus = [op for op in c0 if opkey(op)[0] == 'VariableUnitaryGate']
+    in_domain = len({tuple(op.location) for op in vus}) <= 1 and all(opkey(op)[0] == 'VariableUnitaryGate' for op in c0)
     try:
         run_pass(S['ExtractDiagonalPass'](qudit_size=case['opts']['k']), c1)
     except ValueError as e:
@@ -707,7 +712,13 @@ def run_extract_diag(case):
                   f'{name} builds an ansatz with CNOTGate and instantiates it with method=qfactor, which rejects CNOTGate')
             return r.out()
         raise
-    chk_thr(r, name, U(c0), U(c1), 1e-8)
+    k = max(1, len(vus) - 1)              # number of extractions, each within 1e-8 of its own target
+    d = hs(U(c0), U(c1))
+    if not d <= 1e-8 * k * k * 1.01 + 1e-11:
+        r.bad({'pass': name, 'symptom': 'extract_diagonal_wrong_merge', 'in_domain': in_domain}, f'1-|tr|/N <= {k * k}e-8', d,
+              f'{name}: the extracted diagonal was merged into an operation it does not commute to (different qudits, other qudit order or a gate in between)'
+              if not in_domain else f'{name}: output is farther from the input than the accumulated success thresholds')
+    r.info['in_domain'] = in_domain
     return r.out()
 
 
@@ -751,6 +762,8 @@ def run_analytic(case):
         run_pass(p, c1)
     except BaseException as e:       # noqa  (pyo3 panics derive from BaseException)
         kind, msg = type(e).__name__, str(e)
+        if isinstance(e, Timeout) or 'Timeout' in msg:
+            raise Timeout()
         if kind == 'PanicException' and o.get('scan'):
             r.bad({'pass': name, 'symptom': 'qfactor_native_panic', 'via': 'ScanningGateRemovalPass(method=qfactor)'},
                   'the pass completes', f'{kind}: {msg}',
@@ -770,7 +783,14 @@ def run_analytic(case):
             raise
         return r.out()
     u0, u1 = U(c0), U(c1)
-    if o.get('scan'):
+    if o.get('extract'):
+        d = hs(u0, u1)
+        if not d <= 64e-8:        # up to ~8 extractions, each within 1e-8 of its own target
+            single = c0.num_operations == 1
+            r.bad({'pass': name, 'symptom': 'extract_diagonal_wrong_merge', 'in_domain': single}, '1-|tr|/N <= 64e-8', d,
+                  f'{name}(perform_extract=True): ExtractDiagonalPass merged a diagonal across operations of the input circuit it does not commute with'
+                  if not single else f'{name}(perform_extract=True): output differs from the input')
+    elif o.get('scan'):
         chk_thr(r, name, u0, u1, 1e-8 * 8)        # one accepted removal per scan round, each < 1e-8 of ITS target
     else:
         chk_exact(r, name, u0, u1, opts=str(sorted(o.items())))
@@ -1378,6 +1398,10 @@ def do_task(task):
     except Timeout:
         out = dict(case=task['case'], issues=[], info={'timeout': True}, nontrivial=False)
     except BaseException as e:           # noqa  (pyo3 panics derive from BaseException)
+      if 'Timeout' in str(e) or 'Timeout' in type(e).__name__:
+        # our SIGALRM fired inside a Python callback made by native code, which re-raised it as a panic
+        out = dict(case=task['case'], issues=[], info={'timeout': True}, nontrivial=False)
+      else:
         out = dict(case=task['case'], issues=[dict(
             sig={'pass': task['case'].get('p'), 'symptom': 'exception', 'exc': type(e).__name__},
             expected='the pass completes', observed=traceback.format_exc()[-1500:],
@@ -1500,11 +1524,15 @@ def gen_tasks(ctx, rng, scale=1.0, only=None):
                             opts=dict(wtp=wtp, bs=rng.randint(2, wtp - 1), left=rng.random() < 0.5, thr=1e-8)), 120)
     for _ in range(n(14, 120)):
         add('subst', gen_subst_case(rng, th))
-    for _ in range(n(3, 10)):
+    for _ in range(n(5, 40)):
         k = 2
         nn = rng.randint(2, 3)
-        ops = [['VU', rng.sample(range(nn), k), dict(seed=rng.randint(0, 999))] for _ in range(rng.randint(2, 3))]
-        add('extract_diag', dict(p='ExtractDiagonalPass', circ=dict(n=nn, ops=ops), opts=dict(k=k)))
+        loc = rng.sample(range(nn), k)
+        if rng.random() < 0.7:        # in the domain: one location
+            ops = [['VU', loc, dict(seed=rng.randint(0, 999))] for _ in range(rng.randint(2, 4))]
+        else:
+            ops = [['VU', rng.sample(range(nn), k), dict(seed=rng.randint(0, 999))] for _ in range(rng.randint(2, 3))]
+        add('extract_diag', dict(p='ExtractDiagonalPass', circ=dict(n=nn, ops=ops), opts=dict(k=k)), 120)
     # analytic
     for name, q, t in [('QSDPass', 12, 120), ('BlockZXZPass', 12, 120), ('MGDPass', 10, 100), ('FullQSDPass', 10, 80),
                        ('FullBlockZXZPass', 10, 80)]:
@@ -1519,7 +1547,7 @@ def gen_tasks(ctx, rng, scale=1.0, only=None):
                 o['extract'] = rng.random() < 0.15
                 if rng.random() < 0.1:
                     o['scan'] = True
-            circ = gen_vu_circ(rng, 3, nmax)
+            circ = gen_vu_circ(rng, 3, 3 if o.get('scan') else nmax)
             if o.get('scan') and rng.random() < 0.8:
                 circ['ops'] = [op for op in circ['ops'] if op[0] == 'VU']
             add('analytic', dict(p=name, circ=circ, opts=o), 120)
